@@ -402,6 +402,25 @@ def run_moments(ctx, setup, model, c, e, K, lmax, maxev, vw, maxev2=None):
                 ok = True
             if not ok:
                 break
+        surfaced, rep = False, None
+        if stop == 1:
+            # history with a fault at a particular point: the FIRST node-based query after the continuation (new nodes; the model's cache was emptied, as a user
+            # does to bound memory) hits a model failure at its third evaluation; the caller repeats the query.  The repeated answer must be the answer of the
+            # current grid (compared below with the same query asked later) -- missed seed C15_9: model values of the previous grid kept because "the nodes are
+            # unchanged" since the aborted query
+            from bounded._drivers_common import arm_fault, ModelFault
+            with ctx.guard("B.mom.idempotent", S_MOM, pre + "raises-repeated-after-model-fault"):
+                with quiet():
+                    f.reset_dictionary()
+                    arm_fault(f, 3)
+                    try:
+                        op.calculate_expectation_and_variance(ci, use_combiinstance_solution=False)
+                    except ModelFault:
+                        surfaced = True
+                    finally:
+                        for nm in ("eval", "eval_vectorized"):
+                            f.__dict__.pop(nm, None)
+                    rep = [_arr(x) for x in op.calculate_expectation_and_variance(ci, use_combiinstance_solution=False)]
         ok = False
         with ctx.guard("B.mom.returns", S_MOM, "raises" + ("/" + tag if tag else "")):
             with quiet():
@@ -455,6 +474,9 @@ def run_moments(ctx, setup, model, c, e, K, lmax, maxev, vw, maxev2=None):
                       "get_result() before the queries %s, after %s" % (res0, res1))
             check_stats(ctx, E2, V2, c, e, K, G, spanning, pre + "query2")
             check_stats(ctx, En, Vn, c, e, K, gmax[0], spanning, pre + "nodes-path")
+            if rep is not None and surfaced:
+                ctx.check("B.mom.idempotent", close(rep[0], En, 1e-10, 1e-13) and close(rep[1], Vn, 1e-10, 1e-13), S_MOM, pre + "nodes-path-repeated-after-model-fault",
+                          "node-based query repeated after a model fault gave E %s Var %s; the same query asked afterwards E %s Var %s" % (rep[0], rep[1], En, Vn))
         for (what, obj, cp) in kept:
             now = _arr(obj)
             ctx.check("B.mom.report_stable", now.shape == cp.shape and bool(np.array_equal(now, cp)), S_MOM, "changed-" + what + ("-at-" + tag if tag else ""),
